@@ -11,7 +11,12 @@
   * `buildIncludeExceptString` ranges over the line map and sorts by index: `C03_include_except_order_free` (the
     indices are pairwise distinct, so every iteration order and every sorting algorithm give the model's
     `dedupLast`/`filter`; C06);
-  * `expandDefinitions` ranges three times over the definitions map: C07.
+  * `expandDefinitions` ranges over the definitions map: since the repair of D28 the map is ranged over only to collect
+    the names, which are then sorted — the visiting order of both loops is a function of the set of names
+    (`C03_definitions_visiting_order_fixed`) — and to rewrite every value, entry by entry (a `map`; C07
+    `closeVars_perm_table`). Before the repair the visiting order was the map's, and on definitions whose
+    substitution creates reference syntax the output depended on it (D28, `C07_order_matters_when_syntax_is_created`);
+    where no syntax is created every order gives the same result (`C07_order_free`).
 
   The list of map `range` sites is extracted from /repo's source on every run and compared with this list.
 -/
@@ -19,6 +24,7 @@ import Crs.Parser
 import CrsProofs.Lines
 import CrsProps.C02
 import CrsProofs.SortPerm
+import CrsProofs.SortNames
 namespace Crs.Props
 open Crs Crs.Pat Crs.Parser
 
@@ -172,6 +178,13 @@ theorem C03_classification_unambiguous (l : Bytes) : (claims l).length ≤ 1 := 
               simp [h1, hin, hix, hdf]
             · simp only [hin, hix, hdf, Bool.false_eq_true, if_false, List.append_nil]
               split <;> simp
+
+/-- **C03 (definitions).** The names are collected by ranging over the map — in some order `ks'` — and sorted: the
+    order in which both loops of `expandDefinitions` visit them is the same for every collection order. -/
+theorem C03_definitions_visiting_order_fixed {ks ks' : List Bytes} (p : ks.Perm ks') : sortedOrd ks = sortedOrd ks' :=
+  sortNames_perm_eq p
+
+example : sortedOrd [b!"b", b!"a-1", b!"a", b!"B"] = [b!"B", b!"a", b!"a-1", b!"b"] := by decide
 
 /-- the flag prefix does not depend on the order in which the flag set is iterated -/
 theorem C03_flags_order_free (fl fl' : List Char) (h : ∀ c, c ∈ fl ↔ c ∈ fl') : Asm.sortFlags fl = Asm.sortFlags fl' :=
